@@ -48,6 +48,8 @@ func (j job) make(seed int64, maxN int) (*Case, error) {
 		return genPair(seed, j.idx, j.a == 4, j.b, j.c, j.d)
 	case "subtree":
 		return genSubtree(seed, j.idx, j.a, j.b)
+	case "topology":
+		return genTopo(seed, j.idx)
 	}
 	return nil, fmt.Errorf("unknown phase %q", j.phase)
 }
@@ -150,7 +152,7 @@ type workerState struct {
 
 func main() {
 	rep = evid.New("C13", "exploration")
-	rep.SetRule("cases = multisets of IPv4/IPv6 prefixes and bare addresses (random sets grown by duplicate / same-base / child / parent / sibling / touching-block operators; every ordered pair of lengths 0..32 and 0..128 in 4 geometric relations; all 32767 subsets of a complete 3-level prefix subtree at 8 places incl. both ends of the address space and of the mapped range), each loaded in 3 orders through Append, LoadFromText, LoadFromReader and ip_set, probed at first/last/neighbour addresses of every prefix + extremes + random, in v6 and v4 form. A case is non-trivial if it has >= 2 prefixes of which at least two are duplicates, share a base, are nested or touch, and the oracle answers both true and false for its probes; distinct = distinct multisets of (masked base, length)")
+	rep.SetRule("cases = multisets of IPv4/IPv6 prefixes and bare addresses (random sets grown by duplicate / same-base / child / parent / sibling / touching-block operators; every ordered pair of lengths 0..32 and 0..128 in 4 geometric relations; all 32767 subsets of a complete 3-level prefix subtree at 8 places incl. both ends of the address space and of the mapped range; random DAGs of 3..9 cooperating ip_set plugins with shared referenced sets, each set probed after its own and after all constructions against its own + transitively referenced prefixes), each loaded in 3 orders through Append, LoadFromText, LoadFromReader and ip_set, probed at first/last/neighbour addresses of every prefix + extremes + random, in v6 and v4 form. A case is non-trivial if it has >= 2 prefixes of which at least two are duplicates, share a base, are nested or touch, and the oracle answers both true and false for its probes; distinct = distinct multisets of (masked base, length)")
 	rep.Assume("net/netip parsing and formatting (ParseAddr, ParsePrefix, AddrFrom4/16, As16) are trusted; the oracle itself uses only byte arrays and its own bit compare, cross-checked against math/big at start-up")
 	rep.Assume("zoned addresses and invalid netip.Addr / netip.Prefix values are out of scope and never generated")
 	rep.Assume("text inputs are restricted to forms the loaders document: one address or CIDR per line, '#' comments, text after the first blank ignored, surrounding blanks/tabs/CR; a tab directly before '#' is not generated (the loader rejects such a line with an error, it does not mis-load it)")
@@ -247,6 +249,10 @@ func main() {
 		}
 	}
 
+	for i, n := 0, rep.Pick(8000, 400000); i < n; i++ {
+		add(job{phase: "topology"})
+	}
+
 	nw := runtime.GOMAXPROCS(0)
 	if nw > 16 {
 		nw = 16
@@ -287,6 +293,9 @@ func main() {
 				ws[w].cur.Store(nil)
 				rep.Eval(1)
 				flags, fp := classify(c)
+				if len(c.Topo) > 0 {
+					fp += c.topoShape()
+				}
 				localFlags[flags]++
 				localPhase[c.Phase]++
 				nt := len(c.Items) >= 2 && flags&(fDup|fSameBase|fNested|fAdjacent) != 0 && res.nTrue > 0 && res.nFalse > 0
@@ -379,6 +388,23 @@ func main() {
 	rep.Count("cases_with_order_dependent_answers", nOrderDependent.Load())
 	rep.Count("reader_noise_lines_per_order", nReaderNoise.Load())
 	rep.Count("cases_with_rejected_input", loadErrCount)
+	rep.Count("topology_cases", nTopoCases.Load())
+	rep.Count("topology_plugins_built", nTopoPlugins.Load())
+	rep.Count("topology_plugins_with_only_sets", nTopoSetsOnly.Load())
+	rep.Count("topology_sets_only_plugins_sharing_their_first_reference", nTopoSharedFirstRef.Load())
+	rep.Count("topology_groups_with_spare_capacity", nTopoSpareCap.Load())
+	rep.Count("topology_cases_with_two_sets_only_plugins_starting_from_the_same_non_full_group", nTopoSharedHub.Load())
+	rep.Count("topology_queries", nTopoQueries.Load())
+	rep.Count("topology_sets_damaged_by_a_later_construction", nTopoDamagedLater.Load())
+	tm := map[string]int64{}
+	for i := range topoMembers {
+		n := fmt.Sprint(i)
+		if i == 7 {
+			n = "7+"
+		}
+		tm[n] = topoMembers[i].Load()
+	}
+	rep.Extra("topology_group_lengths", tm)
 	rep.Extra("out_of_scope_observations_not_judged", map[string]int64{
 		"invalid_addr_queries_answered_true":             nInvalidTrue.Load(),
 		"zoned_form_of_a_covered_address_asked":          nZonedAsked.Load(),
@@ -446,6 +472,10 @@ func main() {
 		rep.Inconclusive("a monitor observed nothing (true=%d false=%d struct=%d merged=%d v4form=%d plugin=%d nontrivial=%d)",
 			nTrue.Load(), nFalse.Load(), nStructChecks.Load(), nMergedAway.Load(), nV4FormQueries.Load(), nPluginLists.Load(), nontrivial)
 	}
+	if nTopoSetsOnly.Load() == 0 || nTopoSharedFirstRef.Load() == 0 || nTopoSpareCap.Load() == 0 {
+		rep.Inconclusive("the multi-plugin monitor observed nothing (sets-only plugins=%d, shared first reference=%d, groups with spare capacity=%d)",
+			nTopoSetsOnly.Load(), nTopoSharedFirstRef.Load(), nTopoSpareCap.Load())
+	}
 	for i, l := range layers {
 		if layerLoads[i].Load() == 0 && rep.Violations() == 0 {
 			rep.Inconclusive("layer %s was never exercised", l)
@@ -489,7 +519,7 @@ func sampleOf(c *Case, res caseResult, flags int) any {
 		pr = append(pr, c.Probes[i].Role+":"+show16(c.Probes[i].a))
 	}
 	return map[string]any{
-		"phase": c.Phase, "idx": c.Idx, "loaded": items, "orders": c.Orders,
+		"phase": c.Phase, "idx": c.Idx, "loaded": items, "orders": c.Orders, "topology": c.topoString(),
 		"features": flagString(flags), "probes": len(c.Probes), "some_probes": pr,
 		"oracle_contained": res.nTrue, "oracle_not_contained": res.nFalse,
 		"entries_after_sort": res.entries, "all_loaders_agreed_with_oracle": true,
